@@ -12,8 +12,8 @@
 package main
 
 import (
-	"crypto/sha256"
 	"bytes"
+	"crypto/sha256"
 	"encoding/json"
 	"fmt"
 	"io/ioutil"
